@@ -1,7 +1,9 @@
 """Texts for MANIFEST.json."""
 NOTES = ("All checks: ./check <ID> --tier quick|thorough. Exit 0 = held on everything explored (KNOWN-FINDING lines "
          "allowed), 1 = unlisted violation (VIOLATION line with replay file), 2 = machinery failure (never a verdict). "
-         "Known findings live in /verif/known_findings.txt. See DESIGN.md.")
+         "Known findings live in /verif/known_findings.txt. Every check runs its engines in the std build with debug assertions "
+         "and overflow checks on (tier bounds) and again in a true release build without them (quick bounds); twelve also "
+         "without dimension checking. See DESIGN.md.")
 ENGINES = [
     {"name": "sr_terminals", "path": "harness/sr_terminals", "serves_properties": ["C09"],
      "kind_free_text": "stateright 0.31 explicit-state BFS whose next_state replays actions on real terminals; independent second engine for the C09 state graph"},
@@ -19,8 +21,8 @@ ENGINES = [
 NA = {}
 TEXT = {
     "C19": {
-        "engine": "rrtk-mc c19-trace + c19-unchecked in six builds; driver/c19_cfg.py (cross-configuration comparison; other properties' oracles per configuration)",
-        "technique": "exhaustive enumeration of the configuration space (6 feature configurations) crossed with bounded-exhaustive workloads (all short event histories of every stream, grids of quantities/states/profiles, device rounds); canonical traces compared across all builds; all 49x49 ill-dimensioned unit pairs in the unchecked builds",
+        "engine": "rrtk-mc c19-trace + c19-unchecked in eight builds; driver/c19_cfg.py (cross-configuration comparison; other properties' oracles per configuration)",
+        "technique": "exhaustive enumeration of the configuration space (6 feature configurations + the std pair as a true release build without debug assertions) crossed with bounded-exhaustive workloads (all short event histories of every stream, grids of quantities/states/profiles, device rounds); canonical traces compared across all builds; all 49x49 ill-dimensioned unit pairs in the unchecked builds",
         "text": "The same harness sources are built against rrtk under every configuration; each build writes canonical traces "
                 "of ~200k well-dimensioned cases in 14 sections (incl. degenerate clocks: repeated and backward timestamps) which must be identical across builds (f32 as values, "
                 "timestamps, categories), powf-dependent sections within a stated tolerance across back ends and exact "
